@@ -11,5 +11,7 @@ B=$(mktemp -d /var/tmp/verif-setup.XXXX)
 ./build_worker.sh "$B" || { rm -rf "$B"; exit 2; }
 ./build_worker.sh "$B" race || { rm -rf "$B"; exit 2; }
 rm -rf "$B"
-bin/verif selftest determinism --seeds 6 --reps 4 || exit 2
+# stub fidelity: the same micro-scenarios on the real OS and on the simulated kernel must agree
+(cd sim && /opt/veriftools/go1.26.8/bin/go test -count=1 -overlay /var/tmp/verif-overlay/overlay.json ./fidelity) || { echo "setup: kernel fidelity self-test failed" >&2; exit 2; }
+bin/verif selftest determinism --seeds 5 --reps 4 --props S00,C03,C07,C09 || exit 2
 echo "setup: ok"
